@@ -591,10 +591,11 @@ impl Tcp {
                 None => {}
             },
             Segment::Rst => {
-                if self.sockets.get(&SocketPair::new(dst, src)).is_some() {
-                    self.sockets
-                        .swap_remove(&SocketPair::new(dst, src))
-                        .unwrap();
+                if let Some(sock) = self.sockets.swap_remove(&SocketPair::new(dst, src)) {
+                    // No credit will come back for this stream: wake a writer
+                    // that is parked on the flow-control waker so that it
+                    // fails instead of waiting forever.
+                    sock.flow_control.reset_write();
                 }
             }
         };
@@ -619,7 +620,18 @@ impl Tcp {
     /// Remove the stream socket without decrementing the half-close refcount.
     /// Used when sending RST: the connection is torn down immediately.
     pub(crate) fn reset_stream(&mut self, pair: SocketPair) {
-        self.sockets.swap_remove(&pair);
+        if let Some(sock) = self.sockets.swap_remove(&pair) {
+            sock.flow_control.reset_write();
+        }
+    }
+
+    /// The accepting side writes against the connector's flow control
+    /// (inverted); record it in the stream entry so that tearing the entry
+    /// down can wake a parked writer.
+    pub(crate) fn set_flow_control(&mut self, pair: SocketPair, flow_control: BidiFlowControl) {
+        if let Some(sock) = self.sockets.get_mut(&pair) {
+            sock.flow_control = flow_control;
+        }
     }
 
     pub(crate) fn close_stream_half(&mut self, pair: SocketPair) {
